@@ -507,4 +507,42 @@ example : ¬ accepted {} (fun _ => ⟨0, none⟩) .m5321 [97, 64, 98, 64] := by 
   have : isEmail {} (fun _ => ⟨0, none⟩) .m5321 [97, 64, 98, 64] false = .ok { rc := -16 } := by decide
   rw [this] at h; cases h; simp at hr
 
+/-! ### The local part is judged first, on its own, whatever the domain is -/
+
+/-- **the local part is judged first and on its own**: an address whose local part (1–64 octets, or empty) is invalid for the mode is
+refused with the local part's own code whatever follows the last '@' — a host name, an address literal, garbage -/
+theorem invalid_local_any_domain (b : Build) (conv : List Nat → Conv) (m : Mode) (l d : List Nat) (tld : Bool)
+    (hl : localOf b m l ≠ 0) (hlen : l.length ≤ Lim.VALID_LPART_LEN) (hd : d ≠ []) (hat : 64 ∉ d) :
+    isEmail b conv m (l ++ 64 :: d) tld = .ok { rc := localOf b m l } := by
+  unfold isEmail
+  have hne : (l ++ 64 :: d).isEmpty = false := by cases l <;> simp
+  have hsp : splitLast 64 (l ++ 64 :: d) = some (l, d) := (splitLast_iff 64 _ _ _).mpr ⟨rfl, hat⟩
+  have hde : d.isEmpty = false := by cases d <;> simp_all
+  have hlen' : ¬ l.length > Lim.VALID_LPART_LEN := by omega
+  have hl' : (localOf b m l != 0) = true := by simpa using hl
+  simp only [hne, hsp, hde, hlen', hl', Bool.false_eq_true, if_false, if_true]
+
+/-- and conversely: once the local part is valid, the record is the domain branch's — `hostPart` for a host name, `literalPart` after `[` -/
+theorem valid_local_domain_decides (b : Build) (conv : List Nat → Conv) (m : Mode) (l d : List Nat) (tld : Bool)
+    (hl : localOf b m l = 0) (hlen : l.length ≤ Lim.VALID_LPART_LEN) (hd : d ≠ []) (hat : 64 ∉ d) :
+    isEmail b conv m (l ++ 64 :: d) tld = (if d.head? != some 91 then hostPart b conv m l d tld else literalPart b l d) := by
+  unfold isEmail
+  have hne : (l ++ 64 :: d).isEmpty = false := by cases l <;> simp
+  have hsp : splitLast 64 (l ++ 64 :: d) = some (l, d) := (splitLast_iff 64 _ _ _).mpr ⟨rfl, hat⟩
+  have hde : d.isEmpty = false := by cases d <;> simp_all
+  have hlen' : ¬ l.length > Lim.VALID_LPART_LEN := by omega
+  have hl' : (localOf b m l != 0) = false := by simp [hl]
+  simp only [hne, hsp, hde, hlen', hl', Bool.false_eq_true, if_false]
+
+/-- the literal branch does not look at the mode: the same local-part verdict in front of `[…]` gives the same record in every mode -/
+theorem literal_branch_mode_free (b : Build) (conv : List Nat → Conv) (m m' : Mode) (l d : List Nat) (tld : Bool)
+    (hl : localOf b m l = 0) (hl' : localOf b m' l = 0) (hlen : l.length ≤ Lim.VALID_LPART_LEN) (hat : 64 ∉ d) (hb : d.head? = some 91) :
+    isEmail b conv m (l ++ 64 :: d) tld = isEmail b conv m' (l ++ 64 :: d) tld := by
+  have hd : d ≠ [] := by intro h; subst h; simp at hb
+  rw [valid_local_domain_decides b conv m l d tld hl hlen hd hat, valid_local_domain_decides b conv m' l d tld hl' hlen hd hat]
+  simp [hb]
+
+example : isEmail {} (fun _ => { rc := 0, out := none }) .m6531 ([195, 40] ++ 64 :: [91, 49, 57, 50, 46, 48, 46, 50, 46, 49, 93]) false
+            = .ok { rc := localOf {} .m6531 [195, 40] } ∧ localOf {} .m6531 [195, 40] ≠ 0 := by decide +kernel
+
 end Eav.Props.C01
